@@ -36,7 +36,7 @@ var nilNode = func() *node { return nd("nil", "") }
 func safeStr(s string) string {
 	ok := true
 	for i := 0; i < len(s); i++ {
-		if s[i] < 0x20 || s[i] > 0x7e || s[i] == '\\' {
+		if (s[i] < 0x20 && s[i] != '\n') || s[i] > 0x7e || s[i] == '\\' {
 			ok = false
 			break
 		}
@@ -50,7 +50,7 @@ func safeStr(s string) string {
 		switch {
 		case c == '\\':
 			b.WriteString("\\\\")
-		case c < 0x20 || c > 0x7e:
+		case (c < 0x20 && c != '\n') || c > 0x7e:
 			fmt.Fprintf(&b, "\\x%02x", c)
 		default:
 			b.WriteByte(c)
@@ -292,6 +292,7 @@ var customSpell = map[string]byte{"DYN0": '^', "DYN1": '@', "DYN2": '#', "DYN3":
 
 type built struct {
 	muted bool                  // interceptors of throwaway lexers/parsers do not log
+	nested bool                 // an embedded parse is under way
 	names map[token.Type]string // dynamic token type -> the name it was registered under
 	lb    *lexer.Builder
 	pb    *parser.Builder
@@ -434,6 +435,42 @@ func buildParserBuilder(cfg parseCfg, posIndex map[[2]int]int) *built {
 				nt++
 				id := nt
 				f = func(pb *parser.Builder) { pb.LexerBuilder.UseTokenInterceptor(tokInterceptor(id)) }
+			case "n":
+				// a statement interceptor that, before every statement, builds ANOTHER parser from the same
+				// builder and lets it parse an embedded snippet while the outer parse is under way
+				f = func(pb *parser.Builder) {
+					pb.UseStatementInterceptor(func(p *parser.Parser, next func() ast.Statement) ast.Statement {
+						if !b.nested { // the embedded parser has these interceptors too: one level is enough
+							b.nested = true
+							was := b.muted
+							b.muted = true
+							_, _ = pb.Build("function q(k) { { k } if (k) { return function() { k } } }").ParseProgram()
+							b.muted = was
+							b.nested = false
+						}
+						return next()
+					})
+				}
+			case "w":
+				// a statement interceptor that takes over `while`: it parses the header itself and the body
+				// with the public ParseStatement() - what the default path does, through the public API
+				f = func(pb *parser.Builder) {
+					pb.UseStatementInterceptor(func(p *parser.Parser, next func() ast.Statement) ast.Statement {
+						if p.CurrentToken.Type != token.WHILE || p.PeekToken.Type != token.LPAREN {
+							return next()
+						}
+						stmt := &ast.WhileStatement{Token: p.CurrentToken}
+						p.NextToken()
+						p.NextToken()
+						stmt.Condition = p.ParseExpression()
+						if !p.ExpectToken(token.RPAREN) {
+							return nil
+						}
+						p.NextToken()
+						stmt.Body = p.ParseStatement()
+						return stmt
+					})
+				}
 			case "b":
 				// a Build() in the middle of the installation history: builders may be used at any time
 				b.muted = true
